@@ -21,40 +21,7 @@ Nil == [k |-> "nil"]
 NoScr == [op |-> "none"]
 
 ----------------------------------------------------------------------------
-(* argument domains derived from the document *)
-Flip(b) == IF b >= 65 /\ b <= 90 THEN b + 32 ELSE IF b >= 97 /\ b <= 122 THEN b - 32 ELSE b
-FlipCase(s) == [i \in 1..Len(s) |-> Flip(s[i])]
-PresentKeys(d) == IF d.k = "obj" THEN {d.o[i][1] : i \in 1..Len(d.o)} ELSE {}
-StringElems(d) == IF d.k = "arr" THEN {d.a[i].s : i \in {j \in 1..Len(d.a) : d.a[j].k = "str"}} ELSE {}
-NameArgs(d) ==
-  LET base == PresentKeys(d) \cup StringElems(d)
-  IN {n \in (base \cup {FlipCase(s) : s \in base} \cup {Sub(s, 1, Len(s) - 1) : s \in {x \in base : Len(x) > 0}}
-            \cup {s \o <<98>> : s \in base} \cup {kEmpty, ka}) : WellFormed(n)}
-Width1(d) == IF d.k = "arr" THEN Len(d.a) ELSE IF d.k = "obj" THEN Len(d.o) ELSE 1
-IndexArgs(d) == (0 - (Width1(d) + 2))..(Width1(d) + 2)
-
-RECURSIVE KPaths(_, _)
-\* key paths along the document and one step past it, including kind mismatches
-KPaths(d, fuel) ==
-  IF fuel = 0 THEN {<<>>}
-  ELSE
-    {<<>>} \cup
-    (CASE d.k = "arr" ->
-            UNION {{<<[i |-> i]>> \o p :
-                       p \in (IF ResolveIdx(i, Len(d.a)) < 0 THEN {<<>>}
-                              ELSE KPaths(d.a[ResolveIdx(i, Len(d.a)) + 1], fuel - 1))}
-                   : i \in (0 - (Len(d.a) + 1))..(Len(d.a) + 1)}
-            \cup {<<[n |-> ka]>>}
-       [] d.k = "obj" ->
-            UNION {{<<[n |-> d.o[j][1]]>> \o p : p \in KPaths(d.o[j][2], fuel - 1)} : j \in 1..Len(d.o)}
-            \cup UNION {{<<[q |-> d.o[j][1]]>> \o p : p \in KPaths(d.o[j][2], fuel - 1)} : j \in 1..Len(d.o)}
-            \cup {<<[n |-> <<122>>]>>, <<[i |-> 0]>>, <<[n |-> <<122>>], [i |-> 0]>>}
-       [] OTHER -> {<<[i |-> 0]>>, <<[n |-> ka]>>, <<[i |-> -1], [n |-> ka]>>})
-
-KeyLists(d) ==
-  LET ks == PresentKeys(d) \cup {<<122>>}
-  IN {SortKeys(x) : x \in {y \in SUBSET ks : Cardinality(y) <= 3}}
-
+(* argument domains derived from the document: see Universe.tla *)
 NewVals == {Null, u256, sab, Arr(<<u1, sab>>), Obj(<< <<ka, Null>> >>), Arr(<<>>)}
 Pre == <<7, 7, 7>>
 
@@ -88,6 +55,8 @@ Docs1 ==
                                    \cup {Arr(<<u1>>), Arr(<<f1>>), Arr(<<u1, u1, sab>>), Obj(<< <<ka, u1>>, <<kb, Arr(<<f15>>)>> >>), Obj(<< <<ka, f1>> >>)}
     [] Family \in {"render"} -> RenderDocs
     [] Family \in {"pairs"} -> PairDocs
+    [] Family \in {"extreme"} -> {Null, u1, Arr(<<>>), Arr(<<u1>>), Arr(<<u1, sab, Null>>), Obj(<<>>), Obj(<< <<ka, Arr(<<u1, u2>>)>> >>),
+                                   Arr(<<Arr(<<u1, u2, u256>>), Obj(<< <<ka, Null>> >>)>>)}
     [] Family \in {"pairs2"} -> PairDocs2
     [] Family \in {"num", "numpairs"} -> {NumD(n) : n \in NumSet}
     [] Family \in {"build"} -> {Null, u1, u256, sab, Arr(<<u1, sab>>), Obj(<< <<ka, Null>> >>), Arr(<<>>), Obj(<<>>)}
@@ -142,6 +111,18 @@ EmitRender(x) ==
   \/ Out(S1("render", x, NoArg))
   \/ Out(S1("serde", x, NoArg))
 
+IntMaxG == 2147483647
+IntMinG == (0 - 2147483647) - 1
+ExtremeIdx(x) == {IntMinG, IntMinG + 1, 0 - (Width1(x) + 1), 0 - Width1(x), -1, 0, Width1(x) - 1, Width1(x), Width1(x) + 1, IntMaxG - 1, IntMaxG}
+EmitExtreme(x) ==
+  \/ \E i \in ExtremeIdx(x) : Out(S1("delete_by_index", x, [i |-> i, pre |-> Pre]))
+  \/ \E i \in ExtremeIdx(x), v \in {Null, Arr(<<u1>>)} : Out(S2("array_insert", x, v, [pos |-> i, pre |-> Pre]))
+  \/ \E i \in ExtremeIdx(x) : Out(S1("get_by_keypath", x, [kp |-> <<[i |-> i]>>])) \/ Out(S1("get_by_keypath", x, [kp |-> <<[i |-> 0], [i |-> i]>>]))
+                               \/ Out(S1("get_by_keypath", x, [kp |-> <<[n |-> ka], [i |-> i]>>]))
+  \/ \E i \in ExtremeIdx(x) : Out(S1("delete_by_keypath", x, [kp |-> <<[i |-> i]>>, pre |-> Pre])) \/ Out(S1("delete_by_keypath", x, [kp |-> <<[i |-> 0], [i |-> i]>>, pre |-> Pre]))
+                               \/ Out(S1("delete_by_keypath", x, [kp |-> <<[n |-> ka], [i |-> i]>>, pre |-> Pre]))
+  \/ \E i \in {0, 1, IntMaxG - 1, IntMaxG} : Out(S1("get_by_index", x, [i |-> i]))
+
 EmitNum(x) ==
   \/ Out([op |-> "num", a |-> [n |-> NumOf(x)]])
   \/ Out(S1("roundtrip", x, NoArg))
@@ -177,6 +158,7 @@ Emit ==
        [] Family \in {"edit", "edit11"} -> EmitEdit(d1)
        [] Family \in {"pairs", "pairs2", "pairs11"} -> EmitPairs(d1, d2)
        [] Family = "render" -> EmitRender(d1)
+       [] Family = "extreme" -> EmitExtreme(d1)
        [] Family = "num" -> EmitNum(d1)
        [] Family = "numpairs" -> EmitNumPairs(d1, d2)
        [] OTHER -> FALSE
